@@ -9,6 +9,7 @@ import (
 	"fmt"
 	"github.com/ipld/go-ipld-prime/datamodel"
 	"github.com/ipld/go-ipld-prime/fluent/qp"
+	"strings"
 	"testing"
 	"time"
 
@@ -515,6 +516,10 @@ func TestC09_P_MetadataTimeBuilder(t *testing.T) {
 			msg := &pb.Metadata{}
 			if rapid.Bool().Draw(t, "hasMime") {
 				s := rapid.OneOf(rapid.SampledFrom([]string{"", "text/plain", "a/b; charset=é"}), rapid.String()).Draw(t, "mime")
+				if rapid.IntRange(0, 5).Draw(t, "longMime") == 0 {
+					// a long value: parameters, a data URI pasted by mistake ... (length prefixes of two and three bytes)
+					s = "x-long/" + strings.Repeat("m", rapid.SampledFrom([]int{120, 121, 128, 300, 16376, 16377, 70000}).Draw(t, "mimeLen"))
+				}
 				msg.MimeType = &s
 				parts = append(parts, wBytes(nil, 1, []byte(s)))
 			}
